@@ -421,16 +421,11 @@ pub(crate) struct DisplayParsedRegex<'a>(pub(crate) &'a regex::Regex);
 impl fmt::Display for DisplayParsedRegex<'_> {
     fn fmt(&self, f: &mut fmt::Formatter<'_>) -> fmt::Result {
         let regex = self.0.as_str();
-        let mut escaped = false;
         for c in regex.chars() {
-            if escaped {
-                escaped = false;
-                write!(f, "{c}")?;
-            } else if c == '\\' {
-                escaped = true;
-                write!(f, "{c}")?;
-            } else if c == '/' {
-                // '/' is the only additional escape.
+            if c == '/' {
+                // '/' is the only additional escape. It must be escaped even when it follows a
+                // backslash: parse_regex_inner turns `\/` into `/` and any other `\` into itself,
+                // without tracking whether that backslash was itself escaped.
                 write!(f, "\\/")?;
             } else {
                 write!(f, "{c}")?;
